@@ -4,12 +4,14 @@ From Vib Require Import Model.Base Model.Lattice Model.Tokenizer Model.DictBuild
 Inductive c10case :=
 | C10Struct (c : tokcase)                                   (* structured dictionary, possibly malformed: model vs implementation *)
 | C10Text (id : N) (file : N) (built : N) (sents : list (N * bool))
+| C10Bigram (id : N) (edited : N) (dual : bool) (built : N) (sents : list (N * bool))   (* the dictionary with a raw/dual connector from bigram files, valid or with one text edit *)
 | C10Map (id : N) (nl nr : N) (lmap rmap : list N) (outcome : N) (sents : list (N * bool)).   (* an arbitrary mapping sequence on an accepted dictionary *)  (* one text edit of one definition file: outcomes only *)
 
 Definition c10_corr (c : c10case) : bool :=
   match c with
   | C10Struct t => tok_corr t
   | C10Text _ _ _ _ => true
+  | C10Bigram _ _ _ _ _ => true
   | C10Map _ nl nr l r out _ => (res_code (check_map (N.to_nat nl) (N.to_nat nr) l r) =? out)%N
   end.
 
@@ -21,6 +23,7 @@ Definition c10_oracle_all (c : c10case) : bool :=
       negb (tc_built t =? 2)%N
       && forallb (fun so => negb (so_outcome so =? 2)%N) (tc_sents t)
   | C10Text _ _ built sents => negb (built =? 2)%N && forallb (fun s => negb (fst s =? 2)%N) sents
+  | C10Bigram _ _ _ built sents => negb (built =? 2)%N && forallb (fun s => negb (fst s =? 2)%N) sents
   | C10Map _ _ _ _ _ out sents => negb (out =? 2)%N && forallb (fun s => negb (fst s =? 2)%N) sents
   end.
 Definition c10_known (c : c10case) : bool :=
@@ -30,6 +33,7 @@ Definition c10_known (c : c10case) : bool :=
          negb (tc_built t =? 2)%N
          && with_dict t false (fun d o => forallb (fun so => negb (so_outcome so =? 2)%N || uncovered d so) (tc_sents t))
      | C10Text _ _ built sents => negb (built =? 2)%N && forallb (fun s => negb (fst s =? 2)%N || snd s) sents
+     | C10Bigram _ _ _ built sents => negb (built =? 2)%N && forallb (fun s => negb (fst s =? 2)%N || snd s) sents
      | C10Map _ _ _ _ _ out sents => negb (out =? 2)%N && forallb (fun s => negb (fst s =? 2)%N || snd s) sents
      end.
 
@@ -37,6 +41,7 @@ Definition c10_nontrivial (c : c10case) : bool :=
   match c with
   | C10Struct t => negb (tc_built t =? 0)%N || existsb (fun so => Nat.leb 2 (length (so_tokens so))) (tc_sents t)
   | C10Text _ _ built _ => (built =? 1)%N
+  | C10Bigram _ e _ built _ => (built =? 1)%N || (e =? 0)%N
   | C10Map _ _ _ _ _ out _ => (out =? 1)%N
   end.
 
